@@ -8,6 +8,7 @@ package deps
 //@   ensures found: imp(len(key) > 0 && kvhas[keyid(bytes(key))], isNil(err) && item != nil)
 //@   ensures missing: imp(len(key) > 0 && !kvhas[keyid(bytes(key))], same(err, badger.ErrKeyNotFound))
 //@   ensures empty: imp(len(key) == 0, !isNil(err) && !same(err, badger.ErrKeyNotFound))
+//@   ensures sentinel: !isNil(badger.ErrKeyNotFound)
 //@ trusted func (txn *badger.Txn) Set(key []byte, val []byte) (err error)
 //@   modifies ghost.kvhas
 //@   ensures ok: imp(isNil(err), len(key) > 0 && kvhas == store(old(kvhas), keyid(bytes(key)), true))
